@@ -176,6 +176,13 @@ def axioms_for(used):
            [z3.MultiPattern(rpow(x, y), rpow(a, y))])
         fa([x, y, a], z3.Implies(z3.And(x > 0, x <= 1, y <= a), rpow(x, a) <= rpow(x, y)),
            [z3.MultiPattern(rpow(x, y), rpow(x, a))])
+    if "log2-pow2" in used:       # opt-in: 2**y and log2 are inverse, 2**y is strictly increasing, 2**(y) = 2 * 2**(y-1)
+        u_ = x
+        fa([x], z3.Implies(x > 0, rpow(2, RDIV(ln(x), ln(2))) == x), [RDIV(ln(x), ln(2))])
+        fa([x, y], z3.And(z3.Implies(x < y, rpow(2, x) < rpow(2, y)), z3.Implies(x <= y, rpow(2, x) <= rpow(2, y))),
+           [z3.MultiPattern(rpow(2, x), rpow(2, y))])
+        fa([x], rpow(2, x) == 2 * rpow(2, x - 1), [rpow(2, x)])
+        fa([k], I2R(k) == z3.ToReal(k), [I2R(k)])
     if "pow2" in used:
         out.append(pow2(0) == 1)
         fa([k], z3.Implies(k >= 0, z3.And(pow2(k + 1) == 2 * pow2(k), pow2(k) >= 1)), [pow2(k + 1)])
